@@ -23,6 +23,15 @@ type Term struct {
 	str string
 }
 
+// commOrder: canonical operand order of a commutative numeric operation (constants last).
+func commOrder(l, r *Term) (*Term, *Term) {
+	lc, rc := l.Op == "const", r.Op == "const"
+	if (lc && !rc) || (lc == rc && r.String() < l.String()) {
+		return r, l
+	}
+	return l, r
+}
+
 func mk(op, s string, a ...*Term) *Term { return &Term{Op: op, S: s, A: a} }
 
 func unknown(why string) *Term { return &Term{Op: "unknown", S: why} }
@@ -143,6 +152,21 @@ func (t *Term) hasUnknown() bool {
 	}
 	for _, a := range t.A {
 		if a.hasUnknown() {
+			return true
+		}
+	}
+	return false
+}
+
+func (t *Term) hasParam() bool {
+	if t == nil {
+		return false
+	}
+	if t.Op == "param" {
+		return true
+	}
+	for _, a := range t.A {
+		if a.hasParam() {
 			return true
 		}
 	}
@@ -373,10 +397,8 @@ func (x *TX) of(v ssa.Value, at ssa.Instruction) *Term {
 			switch v.Op {
 			case token.ADD, token.MUL, token.AND, token.OR, token.XOR:
 				// commutative on numbers: canonical operand order (constants last)
-				lc, rc := l.Op == "const", r.Op == "const"
-				if (lc && !rc) || (lc == rc && r.String() < l.String()) {
-					l, r = r, l
-				}
+				l, r = commOrder(l, r)
+				return &Term{Op: "bin", S: v.Op.String(), A: []*Term{l, r}, F: []string{"comm"}}
 			}
 		}
 		return mk("bin", v.Op.String(), l, r)
@@ -876,29 +898,92 @@ func (x *TX) allocValueFrom(a *ssa.Alloc, elem types.Type, ws []writer, at ssa.I
 	if !isStruct {
 		return unknown("field writes into non-struct " + a.Name())
 	}
-	// assemble field updates (only first-level paths are folded into literals;
-	// deeper paths are folded recursively through nested literals)
-	fields := map[string]*Term{}
-	for _, k := range pathOrder {
-		wl := byPath[k]
-		var alts []*Term
-		var ins []ssa.Instruction
-		for _, w := range wl {
-			alts = append(alts, valOf(w))
-			ins = append(ins, w.in)
+	// assemble folds the field writers fws over base; a field whose writers can all be
+	// bypassed on the way (from start, or from the entry) to at keeps its prior value too
+	assemble := func(base *Term, start ssa.Instruction, fws []writer) *Term {
+		if len(fws) == 0 {
+			return base
 		}
-		for _, w := range whole {
-			ins = append(ins, w.in)
+		by := map[string][]writer{}
+		var order []string
+		for _, w := range fws {
+			k := pathKey(w.path)
+			if _, ok := by[k]; !ok {
+				order = append(order, k)
+			}
+			by[k] = append(by[k], w)
 		}
-		if at != nil && x.fi.entryReachesAvoiding(at, insOf(wl)) {
-			// some path reaches at without this field being written: prior value
-			prior := x.fieldPath(base, st, wl[0].path)
-			alts = append(alts, prior)
+		fields := map[string]*Term{}
+		for _, k := range order {
+			wl := by[k]
+			var alts []*Term
+			for _, w := range wl {
+				alts = append(alts, valOf(w))
+			}
+			skip := false
+			if at != nil {
+				if start == nil {
+					skip = x.fi.entryReachesAvoiding(at, insOf(wl))
+				} else {
+					skip = x.fi.instrReachesAvoiding(start, at, insOf(wl))
+				}
+			}
+			if skip {
+				// some path reaches at without this field being written: prior value
+				alts = append(alts, x.fieldPath(base, st, wl[0].path))
+			}
+			fields[k] = phiOf(alts)
 		}
-		fields[k] = phiOf(alts)
-		_ = ins
+		return x.buildLit(base, elem, st, fields)
 	}
-	return x.buildLit(base, elem, st, fields)
+	var fieldWs []writer
+	for _, w := range reaching {
+		if len(w.path) != 0 {
+			fieldWs = append(fieldWs, w)
+		}
+	}
+	if len(whole) == 0 || at == nil {
+		return assemble(base, nil, fieldWs)
+	}
+	// whole-value stores and field stores are ordered: a whole store discards the field
+	// stores before it (`v := T{F: 1}; if c { v = *p }` is phi(*p | T{F:1}), not *p with F=1)
+	wholeIns := insOf(whole)
+	var alts []*Term
+	for _, w := range whole {
+		if !x.fi.instrReachesAvoiding(w.in, at, exceptIns(wholeIns, w.in)) {
+			continue // always overwritten by another whole store before at
+		}
+		var after []writer
+		for _, fw := range fieldWs {
+			if x.fi.canReach(w.in, fw.in) && x.fi.instrReachesAvoiding(fw.in, at, wholeIns) {
+				after = append(after, fw)
+			}
+		}
+		alts = append(alts, assemble(valOf(w), w.in, after))
+	}
+	if x.fi.entryReachesAvoiding(at, wholeIns) {
+		var pre []writer
+		for _, fw := range fieldWs {
+			if x.fi.entryReachesAvoiding(fw.in, wholeIns) && x.fi.instrReachesAvoiding(fw.in, at, wholeIns) {
+				pre = append(pre, fw)
+			}
+		}
+		alts = append(alts, assemble(zeroTerm(elem), nil, pre))
+	}
+	if len(alts) == 0 {
+		return unknown("no store of " + a.Name() + " reaches its use")
+	}
+	return phiOf(alts)
+}
+
+func exceptIns(ins []ssa.Instruction, x ssa.Instruction) []ssa.Instruction {
+	var out []ssa.Instruction
+	for _, i := range ins {
+		if i != x {
+			out = append(out, i)
+		}
+	}
+	return out
 }
 
 func insOf(ws []writer) []ssa.Instruction {
@@ -1411,16 +1496,20 @@ func (x *TX) callTerm(c *ssa.Call) *Term {
 			return &Term{Op: "conv", S: "[]byte", A: []*Term{in}}
 		}
 	}
-	if t := x.inlineHelper(callee, args); t != nil {
+	var plain *Term
+	if callee.Signature.Recv() != nil && len(args) > 0 && args[0].Op == "k" {
+		plain = &Term{Op: "call", S: "k." + callee.Name(), A: args[1:]}
+	} else {
+		pa := args
+		if commutative[name] && len(args) == 2 && args[1].String() < args[0].String() {
+			pa = []*Term{args[1], args[0]}
+		}
+		plain = &Term{Op: "call", S: name, A: pa}
+	}
+	if t := x.inlineHelper(c, callee, args, plain); t != nil {
 		return t
 	}
-	if callee.Signature.Recv() != nil && len(args) > 0 && args[0].Op == "k" {
-		return &Term{Op: "call", S: "k." + callee.Name(), A: args[1:]}
-	}
-	if commutative[name] && len(args) == 2 && args[1].String() < args[0].String() {
-		args[0], args[1] = args[1], args[0]
-	}
-	return &Term{Op: "call", S: name, A: args}
+	return plain
 }
 
 func (x *TX) spliceVarargs(sig *types.Signature, args []*Term, off int) []*Term {
@@ -1574,29 +1663,30 @@ func (x *TX) loopDepth(b *ssa.BasicBlock) int {
 var inlining = map[*ssa.Function]bool{}
 
 // inlineHelper: a module function that is not part of the reference tree's API
-// (knownFuncs), has a body of straight-line code with a single return, and whose
-// transitive effects are at most capability-free external calls, is replaced by its
-// return term with the arguments substituted. Returns nil when it does not apply.
-func (x *TX) inlineHelper(callee *ssa.Function, args []*Term) *Term {
-	if callee.Blocks == nil || !x.p.inModuleCode(callee) || callee.Parent() != nil {
+// (knownFuncs) and has no mutating effect is replaced by the term(s) it returns, with
+// the arguments substituted:
+//   - straight-line body with a single return: always;
+//   - branching body: when exactly one return can report success (the others return a
+//     provably non-nil error, or the function panics instead), the value components are
+//     those of the success return, provided every use of them in the caller lies behind
+//     the caller's own `err == nil` test of this very call (valueUsesBehindErrCheck);
+//     the error component stays the opaque `call#k`, so the caller's test of it is
+//     still visible as a branch atom (and is resolved by splicing, see splice.go).
+// Returns nil when it does not apply.
+func (x *TX) inlineHelper(c *ssa.Call, callee *ssa.Function, args []*Term, plain *Term) *Term {
+	if !x.p.newHelper(callee) || inlining[callee] {
 		return nil
 	}
-	if knownFuncs[funcName(callee)] || inlining[callee] {
-		return nil
-	}
-	if strings.HasPrefix(funcName(callee), "zzverifcontrol") {
-		return nil
-	}
-	var ret *ssa.Return
+	var rets []*ssa.Return
+	branching := false
 	for _, b := range callee.Blocks {
 		for _, in := range b.Instrs {
 			switch in := in.(type) {
 			case *ssa.Return:
-				if ret != nil {
-					return nil
-				}
-				ret = in
-			case *ssa.If, *ssa.Panic, *ssa.Store, *ssa.MapUpdate, *ssa.Go, *ssa.Defer, *ssa.Send:
+				rets = append(rets, in)
+			case *ssa.If, *ssa.Panic:
+				branching = true
+			case *ssa.Store, *ssa.MapUpdate, *ssa.Go, *ssa.Defer, *ssa.Send:
 				if st, ok := in.(*ssa.Store); ok {
 					// stores into locals (struct literals, buffers) are fine
 					if _, local := rootAlloc(st.Addr); local {
@@ -1607,19 +1697,55 @@ func (x *TX) inlineHelper(callee *ssa.Function, args []*Term) *Term {
 			}
 		}
 	}
-	if ret == nil || len(callee.Blocks) != 1 {
+	if len(rets) == 0 {
 		return nil
 	}
 	inlining[callee] = true
 	defer delete(inlining, callee)
 	for _, e := range x.p.closure(callee) {
-		if e.Kind != "EXTERNAL" || e.Key != nil {
+		switch e.Kind {
+		case "EXTERNAL", "R", "PANIC", "ESCAPE":
+			// value identity is unaffected; the effects themselves are accounted for by
+			// the effect closure of the caller
+		default:
 			return nil
 		}
 	}
 	cx := x.p.tx(callee)
+	var ret *ssa.Return
+	keepErr := false
+	if !branching && len(callee.Blocks) == 1 {
+		ret = rets[0]
+	} else {
+		var succ []*ssa.Return
+		nErr := 0
+		for _, r := range rets {
+			switch x.p.exitKind(cx, r) {
+			case "error":
+				nErr++
+			case "ok", "plain":
+				succ = append(succ, r)
+			default:
+				return nil
+			}
+		}
+		if len(succ) != 1 {
+			return nil
+		}
+		ret = succ[0]
+		if nErr > 0 {
+			if c == nil || len(ret.Results) < 2 || !valueUsesBehindErrCheck(c) {
+				return nil
+			}
+			keepErr = true
+		}
+	}
 	var results []*Term
-	for _, rv := range ret.Results {
+	for i, rv := range ret.Results {
+		if keepErr && i == len(ret.Results)-1 {
+			results = append(results, mk("extract", strconv.Itoa(i), plain))
+			continue
+		}
 		t := substTerm(cx.Of(rv, ret), args)
 		if t.hasUnknown() {
 			return nil
@@ -1633,4 +1759,92 @@ func (x *TX) inlineHelper(callee *ssa.Function, args []*Term) *Term {
 		return results[0]
 	}
 	return &Term{Op: "tuple", A: results}
+}
+
+// newHelper: a module function with a body that the reference tree does not have.
+func (p *Prog) newHelper(callee *ssa.Function) bool {
+	if callee == nil || callee.Blocks == nil || !p.inModuleCode(callee) || callee.Parent() != nil {
+		return false
+	}
+	if knownFuncs[funcName(callee)] || strings.HasPrefix(funcName(callee), "zzverifcontrol") {
+		return false
+	}
+	return true
+}
+
+// valueUsesBehindErrCheck: call c returns (values…, error); its error component is
+// tested against nil by a branch, and every use of the value components is dominated by
+// the successor on which the error is nil.
+func valueUsesBehindErrCheck(c *ssa.Call) bool {
+	tup, ok := c.Type().(*types.Tuple)
+	if !ok || tup.Len() < 2 {
+		return false
+	}
+	var errX *ssa.Extract
+	var vals []*ssa.Extract
+	if refs := c.Referrers(); refs != nil {
+		for _, r := range *refs {
+			ex, ok := r.(*ssa.Extract)
+			if !ok {
+				if _, dbg := r.(*ssa.DebugRef); dbg {
+					continue
+				}
+				return false
+			}
+			if ex.Index == tup.Len()-1 {
+				errX = ex
+			} else {
+				vals = append(vals, ex)
+			}
+		}
+	}
+	if errX == nil {
+		return false
+	}
+	var okSucc *ssa.BasicBlock
+	if refs := errX.Referrers(); refs != nil {
+		for _, r := range *refs {
+			bo, ok := r.(*ssa.BinOp)
+			if !ok || (bo.Op != token.NEQ && bo.Op != token.EQL) {
+				continue
+			}
+			other := bo.Y
+			if bo.Y == ssa.Value(errX) {
+				other = bo.X
+			}
+			if k, ok := other.(*ssa.Const); !ok || k.Value != nil {
+				continue
+			}
+			if brefs := bo.Referrers(); brefs != nil {
+				for _, br := range *brefs {
+					if iff, ok := br.(*ssa.If); ok {
+						slot := 1
+						if bo.Op == token.EQL {
+							slot = 0
+						}
+						s := iff.Block().Succs[slot]
+						if len(s.Preds) == 1 {
+							okSucc = s
+						}
+					}
+				}
+			}
+		}
+	}
+	if okSucc == nil {
+		return false
+	}
+	for _, v := range vals {
+		if refs := v.Referrers(); refs != nil {
+			for _, r := range *refs {
+				if _, dbg := r.(*ssa.DebugRef); dbg {
+					continue
+				}
+				if r.Block() != okSucc && !okSucc.Dominates(r.Block()) {
+					return false
+				}
+			}
+		}
+	}
+	return true
 }
